@@ -165,7 +165,36 @@ fn structured_haystack(r: &mut Rng, n: &[u8]) -> Vec<u8> {
 
 /// One substring record: structured needle and haystack; the whole substring API.
 pub fn sub_record(r: &mut Rng) -> Value {
-    let n = structured_needle(r);
+    let mut n = structured_needle(r);
+    if !n.is_empty() && r.chance(1, 4) {
+        // tail family: the first (usually only) occurrence ends 0..3 bytes before the end of the haystack and follows
+        // near misses that keep the needle's last bytes; in half of the cases the needle's rarest bytes are its last
+        // two, so that a vector prefilter's minimum haystack length exceeds the needle length and the last prefilter
+        // call sees a remainder shorter than that minimum
+        if n.len() >= 2 && r.chance(1, 2) {
+            let l = n.len();
+            n[l - 1] = b'Q';
+            n[l - 2] = [b'Z', 0xF7, b'q'][r.below(3)];
+        }
+        let filler = [b'#', b'z', 0x00, 0xC1][r.below(4)];
+        let target = pick_len(r, 200);
+        let mut h = Vec::new();
+        while h.len() < target {
+            match r.below(4) {
+                0 | 1 => {
+                    let mut m = n.clone();
+                    let i = r.below((m.len() + 1) / 2);
+                    m[i] = if m[i] == filler { filler ^ 0x55 } else { filler };
+                    h.extend(m);
+                }
+                2 => h.extend(std::iter::repeat(filler).take(r.below(20))),
+                _ => h.extend_from_slice(&n[r.below(n.len())..]),
+            }
+        }
+        h.extend_from_slice(&n);
+        h.extend(std::iter::repeat(filler).take(r.below(4)));
+        return json!({"k": "sub", "n": n, "h": h, "obs": sub_obs(&n, &h)});
+    }
     let h = structured_haystack(r, &n);
     json!({"k": "sub", "n": n, "h": h, "obs": sub_obs(&n, &h)})
 }
